@@ -66,7 +66,42 @@ func init() {
 	)
 }
 
+// c11ProviderStoresRange: provider.SetDispatchPorts records all three values it
+// is given, unconditionally, and brings an existing internal link up to date
+// with the same three values (decision table; any condition under which a
+// configured value is not recorded is an unspecified branch).
+func c11ProviderStoresRange(c *Ctx) {
+	fn := c.Fn("(*router/underlayproviders/udpip.provider).SetDispatchPorts")
+	if fn == nil {
+		return
+	}
+	il := "typeassert:*router/underlayproviders/udpip.internalLink"
+	_ = il
+	RunTable(c, &TableSpec{
+		Rule: "F1-range-reaches-resolve", Fn: fn, NoInline: []string{"*"},
+		Effects: []string{"recv.dispatchStart", "recv.dispatchEnd", "recv.dispatchRedirect",
+			"*.dispatchStart", "*.dispatchEnd", "*.dispatchRedirect"},
+		Atoms: []Atom{
+			{Name: "hasInternal", Pats: []string{"(recv.internalConnection != nil)"}, Domain: boolDom()},
+			{Name: "isInternalLink", Pats: []string{"*.(*router/underlayproviders/udpip.internalLink)#1", "*internalLink)#1"}, Domain: boolDom()},
+		},
+		Oracle: func(a map[string]string) map[string]string {
+			want := map[string]string{"recv.dispatchStart": "sym:arg0", "recv.dispatchEnd": "sym:arg1", "recv.dispatchRedirect": "sym:arg2"}
+			if a["hasInternal"] == "false" && a["isInternalLink"] == "true" {
+				return nil // the assertion is not evaluated without an internal connection
+			}
+			if a["hasInternal"] == "true" && a["isInternalLink"] == "true" {
+				want["*#0.dispatchStart"], want["*#0.dispatchEnd"], want["*#0.dispatchRedirect"] = "sym:arg0", "sym:arg1", "sym:arg2"
+			} else {
+				want["*#0.dispatchStart"], want["*#0.dispatchEnd"], want["*#0.dispatchRedirect"] = "", "", ""
+			}
+			return want
+		},
+	})
+}
+
 func runC11(c *Ctx) {
+	c11ProviderStoresRange(c)
 	rule := "F1-range-reaches-resolve"
 	if v := c.View("(*router.Connector).SetPortRange"); v != nil {
 		v.RequireCallArgs(rule, 1, "(*router.dataPlane).SetPortRange", "recv.DataPlane",
